@@ -149,6 +149,23 @@ func drawSize(rng *rand.Rand, max int) int {
 	return 262144 + rng.Intn(max-262144+1)
 }
 
+// dsHeads are the answers a downstream proxy may give to an accepted CONNECT:
+// any 2xx means "tunnel established" (RFC 7231 4.3.6), with or without a reason
+// phrase, HTTP/1.0 or 1.1, with or without extra header fields.
+var dsHeads = []string{
+	"HTTP/1.1 200 OK\r\n\r\n",
+	"HTTP/1.1 200 Connection established\r\nProxy-Agent: verif-downstream\r\n\r\n",
+	"HTTP/1.0 200 Connection established\r\n\r\n",
+	"HTTP/1.1 200 OK\r\nContent-Length: 0\r\n\r\n",
+	"HTTP/1.1 202 Accepted\r\n\r\n",
+	"HTTP/1.1 201 Created\r\nVia: 1.1 verif-downstream\r\n\r\n",
+	"HTTP/1.1 299 Tunnel\r\n\r\n",
+	"HTTP/1.1 204 No Content\r\n\r\n",
+	"HTTP/1.1 202\r\n\r\n",
+	"HTTP/1.0 299\r\n\r\n",
+	"HTTP/1.1 200\r\n\r\n",
+}
+
 // gen draws case g of a stream. The leading factors are stratified over g so
 // that every (route, closer, timing, early bucket) combination occurs.
 func gen(r *vh.Run, stream string, g int, transport string, race bool) tcase {
@@ -214,8 +231,7 @@ func gen(r *vh.Run, stream string, g int, transport string, race bool) tcase {
 	c.PipeCap = []int{4096, 16384, 65536, 1 << 20}[rng.Intn(4)]
 	c.Seg = []string{"none", "small", "mixed"}[rng.Intn(3)]
 	c.Chunk = []string{"tiny", "small", "mixed", "mixed", "large"}[rng.Intn(5)]
-	c.DSHead = []string{"HTTP/1.1 200 OK\r\n\r\n", "HTTP/1.1 200 Connection established\r\nProxy-Agent: verif-downstream\r\n\r\n",
-		"HTTP/1.0 200 Connection established\r\n\r\n", "HTTP/1.1 200 OK\r\nContent-Length: 0\r\n\r\n"}[rng.Intn(4)]
+	c.DSHead = dsHeads[(g/2)%len(dsHeads)] // g%2 is the route: every head occurs on the downstream route in every run
 	return c
 }
 
@@ -298,7 +314,7 @@ func genEarlyHalf(r *vh.Run, stream string, g int, transport string, race bool) 
 	if rng.Intn(2) == 0 {
 		c.TargetFirst = 1 + rng.Intn(2000)
 	}
-	c.DSHead = []string{"HTTP/1.1 200 OK\r\n\r\n", "HTTP/1.1 200 Connection established\r\n\r\n", "HTTP/1.1 200 OK\r\nContent-Length: 0\r\n\r\n"}[rng.Intn(3)]
+	c.DSHead = dsHeads[(g/4)%len(dsHeads)]
 	return c
 }
 
@@ -987,7 +1003,7 @@ func runTunnel(r *vh.Run, c tcase, budget *tunx.Budget) {
 		return
 	}
 	h := respHead.Load().(*tunx.Head)
-	if h.Status() != 200 {
+	if h.Status()/100 != 2 {
 		r.ViolationCase(c, "C04:connect-status:"+c.Route, fmt.Sprintf("CONNECT to a reachable target answered %q", h.Line), w.state())
 		return
 	}
